@@ -17,8 +17,9 @@ def classify(G):
     info = {'arcless': not live, 'regular': None, 'pre': False, 'rho': None}
     if not live:
         return info
-    degs = {len(adj[v]) for v in live}
-    if len(degs) == 1 and all(w in set(live) for v in live for w in adj[v]):
+    L_ = set(live)
+    degs = {sum(1 for w in adj[v] if w in L_) for v in live}      # live successors; arcs into dead vertices may exist besides
+    if len(degs) == 1 and 0 not in degs:
         info['regular'] = degs.pop()
     comps = [c for c in O.tarjan(n, adj) if len(c) > 1 or (c[0] in adj[c[0]])]
     if len(comps) != 1:
